@@ -1,6 +1,7 @@
 """C09 - the statement budget is exact, complete and monotone."""
 
 import copy
+import functools
 import json
 import os
 import re
@@ -67,6 +68,17 @@ ASSUMPTIONS = [
     'recursion limit in the model: Counter.hostImpl_runs_forever)',
     'DEFAULT_MAX_STATEMENTS (1e9, used when the option is absent) is only checked to be positive; runs of that length are not executed '
     '(options without a maxStatements key are run for programs known to stop and must behave like maxStatements = 0)',
+    'family tailcb (the budget expires inside a library / host call-back and nothing runs afterwards): arraySort with a compare '
+    'function, arrayLastIndexOf, arrayIndexOf with a start index, the data functions and host functions that call script functions back '
+    'are not in the Lean driver host - those programs are checked with the implementation-side oracles only (programs built from '
+    'arrayIndexOf with 2 arguments, systemPartial, direct calls and includes are also compared with the model); arrays sorted with a '
+    'compare function are never reachable from the globals (CPython empties a list while it sorts it in place and leaves a partly '
+    'sorted list when the compare function raises: the property says nothing about that intermediate state); the host functions are '
+    'two Python callables of the harness (hostCall: a callable object applying its first argument, hostEach: a functools.partial '
+    'calling its second argument for every element inside try/finally)',
+    'a witness carries the limits of the runs the check process made on the same case before the failing run (before / before_prep); '
+    'replay() repeats that history in its own fresh process and then the run alone - a run that fails only after such a history '
+    '(library state that survives an aborted run) is a failure of the run',
     'runs on an options object with a history are compared with the Lean answer for count = 0 (the shared driver builds the start state '
     'with count := 0; that execute gives the same answer for every other start counter is C09.own_budget, proved by rfl); runs that start '
     'from globals an earlier run left behind (script function values) are checked with the implementation-side oracles only',
@@ -74,10 +86,12 @@ ASSUMPTIONS = [
 TRUSTED = ['reference statement interpreter with its own statement counter (props/C08.py RefStatements + includes and their name resolution), '
            'the static statement count of straight-line programs, the fully-logged '
            'program generator (an include / function statement is announced by a log statement of its own in the rinc family), '
+           'the tail call-back generator (class Tail: every statement logs first, function statements first, include / function statements '
+           'announced in the premarks mode), '
            'the logFn snapshot probe and the options-history driver (run_impl with a prep: earlier runs, copied options, stale '
            'counter; the reference run on a brand-new options dict) in harness/props/C09.py (the property oracles)']
 
-FULLY = ('fl', 'data', 'session', 'rinc')     # families of fully-logged programs (globals snapshot at every log line; started
+FULLY = ('fl', 'data', 'session', 'rinc', 'tailcb')     # families of fully-logged programs (globals snapshot at every log line; started
                                               # statements are counted through the log where case['nfun'] is not None)
 CAP = 3000                      # "unlimited-ish": a program that starts more than CAP statements counts as non-terminating
 CORPUS = os.path.join(os.path.dirname(os.path.dirname(os.path.abspath(__file__))), 'corpus', 'C09.jsonl')
@@ -643,6 +657,322 @@ def session_case(rng):
 
 
 # ---------------------------------------------------------------------------------------------------------------------
+# the budget expires INSIDE a library call-back and nothing runs afterwards (family 'tailcb')
+#   The budget error is raised by the statement loop of a script function that was not called by the script but by LIBRARY (or
+#   host) code - the compare function of arraySort, the match function of arrayIndexOf / arrayLastIndexOf, the target of a
+#   systemPartial value, a function named in the expression string of dataFilter / dataCalculatedField / dataJoin, a host
+#   function that applies its argument - and has to travel through that code (loops, try/finally, cmp_to_key, copied options)
+#   and through every enclosing level (function bodies, call-backs of call-backs, include statements, partials) to the host.
+#   Code that loses it on the way (a `return` in a finally block, a broad except, a fall-back value) lets the run go on; when a
+#   statement follows, that statement trips over the exhausted budget, so only a run whose LAST started statement sits inside
+#   the call-back completes under a limit smaller than its statement count.  The family therefore puts the library call in TAIL
+#   position on every enclosing level (70%; 30% have 1-2 trailing statements) and runs EVERY limit 1..N+2:
+#     leaf   - the innermost library call with a script call-back (TAIL_LEAVES)
+#     level  - 0-2 enclosing levels, each a script function whose last statement holds the inner call and that is itself called
+#              directly / as a match or compare function / through a partial / from a data expression / by a host function, or
+#              whose last statement is an include of a script that ends with the inner call (TAIL_LEVELS)
+#     top    - the last top-level statement: expression statement, assignment, return, or an include of a script ending so
+#   Every statement logs first (FL); function statements come first.  Without include statements started statements = log lines
+#   + functions bound (nfun); with includes every function / include statement is announced by systemLog('>') (premarks).
+#   Arrays sorted with a compare function are never reachable from the globals (CPython empties a list while it sorts it).
+#   mode 'model': only library functions of the Lean driver host (arrayIndexOf with 2 arguments, systemPartial, includes) - compared
+#   with the model; 'impl': + arraySort, arrayLastIndexOf, start indices, data functions; 'host': + host functions in the globals
+#   (a callable object, a functools.partial with try/finally) that call script functions back - implementation-side oracles only.
+# ---------------------------------------------------------------------------------------------------------------------
+
+TAIL_LEAVES = {
+    'model': ['index', 'index-partial-pred', 'partial-index', 'partial-script', 'partial-of-partial', 'direct'],
+    'impl': ['sort', 'sort-partial-cmp', 'partial-sort', 'sort-failing-cmp', 'last-index', 'index-from', 'data-filter', 'data-filter-vars',
+             'data-calc', 'data-join-left', 'data-join-right', 'data-library-callback'],
+    'host': ['host-call', 'host-each', 'host-partial'],
+}
+TAIL_LEVELS = {
+    'model': ['function', 'callback', 'partial-level', 'include-in-function'],
+    'impl': ['compare-callback', 'last-callback', 'data-level'],
+    'host': ['host-level'],
+}
+TAIL_MODES = ['model', 'impl', 'host']
+
+
+class _HostApply:
+    """hostCall(fn, args...) = fn(args...): a callable object, not a function"""
+
+    def __call__(self, args, options):
+        return args[0](list(args[1:]), options)
+
+    def __repr__(self):
+        return 'hostCall'
+
+
+def _host_each(_bound, args, options):
+    """hostEach(array, fn): fn(value) for every element (clean-up code on the way out, as library code has it) -> number of calls"""
+    calls = 0
+    try:
+        for value in list(args[0]):
+            args[1]([value], options)
+            calls += 1
+    finally:
+        calls += 0
+    return calls
+
+
+HOST_FUNCTIONS = {'hostCall': _HostApply(), 'hostEach': functools.partial(_host_each, None)}
+
+
+def start_globals(case):
+    """the globals a run of the case starts from (+ the host functions of the 'host' cases: not JSON, so not part of the case)"""
+    g = copy.deepcopy(case['globals'])
+    if case.get('host'):
+        g.update(HOST_FUNCTIONS)
+    return g
+
+
+class Tail:
+    def __init__(self, rng, mode, premarks, leaf=None, level=None):
+        self.rng, self.mode, self.premarks = rng, mode, premarks
+        self.gen = FL(rng, prefix='t')
+        self.force_leaf, self.force_level = leaf, level
+        self.sure = leaf is not None or level is not None
+        self.levels = [lv for m in TAIL_MODES[:TAIL_MODES.index(mode) + 1] for lv in TAIL_LEVELS[m]
+                       if premarks or lv != 'include-in-function']
+        self.head, self.setup, self.files = [], [], {}
+        self.nfun = self.nname = 0
+        self.kinds = set()
+        self.nomodel = self.noref = self.host = False
+
+    def name(self, stem):
+        self.nname += 1
+        return f'{stem}{self.nname}'
+
+    def pre(self, params):
+        """0-2 logged statements at the head of a function body / an included script"""
+        rng, lines = self.rng, []
+        for _ in range(rng.choice([0, 0, 1, 1, 2])):
+            if params and rng.random() < 0.5:
+                lines.append(f'w = {self.gen.wrap(rng.choice(params) + " + " + str(rng.randint(1, 3)))}')
+            else:
+                lines.append(self.gen.mark())
+        return lines
+
+    def define(self, stem, params, body):
+        name = self.name(stem)
+        if self.premarks:
+            self.head.append(PRE)
+        self.head += [f'function {name}({", ".join(params)}):'] + ['    ' + line for line in body] + ['endfunction']
+        self.nfun += 1
+        return name
+
+    def global_value(self, stem, expr):
+        name = self.name(stem)
+        self.setup.append(f'{name} = {self.gen.wrap(expr)}')
+        return name
+
+    def array(self, lo, hi):
+        return 'arrayNew(' + ', '.join(str(self.rng.randint(0, 6)) for _ in range(self.rng.randint(lo, hi))) + ')'
+
+    def data(self, lo, hi):
+        rows = ', '.join(f"objectNew('x', {self.rng.randint(0, 4)})" for _ in range(self.rng.randint(lo, hi)))
+        self.nomodel = self.noref = True
+        return self.global_value('dd', f'arrayNew({rows})')
+
+    def last(self, expr, base=None):
+        """the last statement(s) of a body; the last statement the run STARTS while they execute is inside the call-backs of expr"""
+        gen, r = self.gen, self.rng.random()
+        if base is None:
+            if r < 0.4:
+                return [gen.wrap(expr)]
+            if r < 0.7:
+                return [f'return {gen.wrap(expr)}']
+            return [f'w = {gen.wrap(expr)}']
+        if r < 0.85:
+            return [f'return {gen.wrap(f"if({expr} == null, {base}, {base})")}']
+        self.kinds.add('statement-after-inner-call')
+        return [f'w = {gen.wrap(expr)}', f'return {gen.wrap(base)}']
+
+    def function(self, stem, params, base, depth, allow_include=False):
+        """a fully-logged script function that returns `base` (None: whatever); depth > 0: its last statement first runs another
+        library call with call-backs, or is an include of a script that ends with one"""
+        body = self.pre([p for p in params if not p.endswith('...')])
+        if depth > 0 and (self.sure or self.rng.random() < 0.85):
+            if allow_include and self.premarks and self.rng.random() < 0.3:
+                body += self.include_stmt(depth - 1)
+            else:
+                body += self.last(self.expr(depth - 1), base)
+        elif base is None:
+            body.append(self.gen.mark() if self.rng.random() < 0.5 else f'return {self.gen.wrap(str(self.rng.randint(0, 3)))}')
+        else:
+            body.append(f'return {self.gen.wrap(base)}')
+        return self.define(stem, params, body)
+
+    def pred(self, depth=0):
+        key = self.rng.choice([9, 9, self.rng.randint(0, 6)])                 # 9: no element matches, every element is visited
+        return self.function('pd', ['v'], f'v == {key}', depth, True)
+
+    def compare(self, depth=0):
+        self.nomodel = True
+        return self.function('cm', ['a', 'b'], self.rng.choice(['a - b', 'b - a', 'systemCompare(a, b)']), depth)
+
+    def plain(self, depth=0, nparams=None):
+        params = ['p', 'q'][:self.rng.randint(0, 2) if nparams is None else nparams]
+        if params and self.rng.random() < 0.15:
+            params[-1] += '...'
+            self.kinds.add('last-arg-array')
+        return self.function('fa', params, None, depth, True), len(params)
+
+    def args(self, n):
+        return ', '.join(str(self.rng.randint(0, 4)) for _ in range(n))
+
+    def include_stmt(self, depth):
+        name = self.name('x') + '.bare'
+        self.kinds.add('include')
+        self.files[name] = None                       # reserve the position: the file map lists outer files first
+        body = self.pre([]) + self.last(self.expr(depth), None)
+        self.files[name] = '\n'.join(body)
+        return [PRE, f"include '{name}'"]
+
+    def data_call(self, kind, data, func):
+        self.nomodel = self.noref = True
+        if kind == 'data-filter':
+            return f"dataFilter({data}, '{func}(x)')"
+        if kind == 'data-filter-vars':
+            return f"dataFilter({data}, '{func}(x + k)', objectNew('k', {self.rng.randint(0, 2)}))"
+        if kind == 'data-calc':
+            return f"dataCalculatedField({data}, 'y', '{func}(x)'" + self.rng.choice([')', ", objectNew('k', 1))"])
+        if kind == 'data-join-left':
+            return f"dataJoin({data}, {data}, '{func}(x)'" + self.rng.choice([')', ", null, true)", ", null, false, objectNew('k', 1))"])
+        return f"dataJoin({data}, {data}, 'x', '{func}(x)', {self.rng.choice(['true', 'false'])}" + self.rng.choice([')', ", objectNew('k', 1))"])
+
+    def leaf(self):
+        rng = self.rng
+        kind, self.force_leaf = self.force_leaf, None
+        if kind is None:
+            r = rng.random()
+            group = 'host' if self.mode == 'host' and r < 0.6 else 'impl' if self.mode != 'model' and r < 0.85 else 'model'
+            kind = rng.choice(TAIL_LEAVES[group])
+        self.kinds.add('leaf:' + kind)
+        if kind in TAIL_LEAVES['impl']:
+            self.nomodel = True
+        if kind == 'index':
+            return f'arrayIndexOf({self.array(1, 5)}, {self.pred()})'
+        if kind == 'index-partial-pred':
+            pq = self.function('pq', ['t', 'v'], 'v == t', 0)
+            return f'arrayIndexOf({self.array(1, 5)}, systemPartial({pq}, {rng.choice([9, 9, rng.randint(0, 6)])}))'
+        if kind == 'partial-index':
+            return f'{self.global_value("pp", f"systemPartial(arrayIndexOf, {self.array(1, 5)})")}({self.pred()})'
+        if kind in ('partial-script', 'partial-of-partial'):
+            fa, _ = self.plain(0, 2)
+            pp = self.global_value('pp', f'systemPartial({fa}, {rng.randint(0, 3)})')
+            if kind == 'partial-script':
+                return f'{pp}({rng.randint(0, 3)})'
+            return f'{self.global_value("qq", f"systemPartial({pp}, {rng.randint(0, 3)})")}()'
+        if kind == 'direct':
+            fa, nparams = self.plain(0)
+            return f'{fa}({self.args(nparams)})'
+        if kind == 'sort':
+            return f'arraySort({self.array(2, 5)}, {self.compare()})'
+        if kind == 'sort-partial-cmp':
+            ck = self.function('ck', ['k', 'a', 'b'], '(a - b) * k', 0)
+            return f'arraySort({self.array(2, 5)}, systemPartial({ck}, {rng.choice([1, -1])}))'
+        if kind == 'partial-sort':
+            return f'{self.global_value("pp", f"systemPartial(arraySort, {self.array(2, 5)})")}({self.compare()})'
+        if kind == 'sort-failing-cmp':                   # the compare function returns no number: the sort fails in the host (null)
+            cm = self.function('cm', ['a', 'b'], rng.choice(['null', "'x'", 'if(a > 2, null, a - b)']), 0)
+            return f'arraySort({self.array(2, 5)}, {cm})'
+        if kind == 'last-index':
+            return f'arrayLastIndexOf({self.array(1, 5)}, {self.pred()}' + rng.choice([')', ', 1)', ', 0)'])
+        if kind == 'index-from':
+            return f'arrayIndexOf({self.array(2, 5)}, {self.pred()}, 1)'
+        if kind == 'data-library-callback':
+            self.nomodel = self.noref = True
+            return f"dataFilter({self.data(1, 3)}, 'arrayIndexOf(arrayNew(x, 1, 2), {self.pred()}) >= 0')"
+        if kind.startswith('data-'):
+            ff = self.function('ff', ['v'], f'v > {rng.randint(0, 3)}', 0)
+            return self.data_call(kind, self.data(1, 4), ff)
+        self.nomodel = self.host = True
+        if kind == 'host-each':
+            return f'hostEach({self.array(1, 4)}, {self.pred()})'
+        fa, _ = self.plain(0, 1)
+        if kind == 'host-call':
+            return f'hostCall({fa}, {rng.randint(0, 3)})'
+        return f'{self.global_value("pp", f"systemPartial(hostCall, {fa})")}({rng.randint(0, 3)})'
+
+    def expr(self, depth):
+        """an expression; the last statement the run starts while it is evaluated is inside a library call-back"""
+        rng = self.rng
+        if depth <= 0:
+            return self.leaf()
+        level, self.force_level = self.force_level or rng.choice(self.levels), None
+        self.kinds.add('level:' + level)
+        if level in TAIL_LEVELS['impl']:
+            self.nomodel = True
+        if level == 'function':
+            fa, nparams = self.plain(depth)
+            return f'{fa}({self.args(nparams)})'
+        if level == 'callback':
+            return f'arrayIndexOf({self.array(1, 3)}, {self.pred(depth)})'
+        if level == 'last-callback':
+            return f'arrayLastIndexOf({self.array(1, 3)}, {self.pred(depth)})'
+        if level == 'compare-callback':
+            return f'arraySort({self.array(2, 3)}, {self.compare(depth)})'
+        if level == 'partial-level':
+            fa, _ = self.plain(depth, 2)
+            return f'{self.global_value("pp", f"systemPartial({fa}, {rng.randint(0, 3)})")}({rng.randint(0, 3)})'
+        if level == 'data-level':
+            ff = self.function('ff', ['v'], f'v > {rng.randint(0, 3)}', depth)
+            return self.data_call(rng.choice(['data-filter', 'data-filter-vars', 'data-calc', 'data-join-left', 'data-join-right']),
+                                  self.data(1, 2), ff)
+        if level == 'include-in-function':
+            body = self.pre(['p']) + self.include_stmt(depth - 1)
+            return f'{self.define("fi", ["p"], body)}({rng.randint(0, 3)})'
+        self.nomodel = self.host = True                  # host-level
+        if rng.random() < 0.5:
+            fa, _ = self.plain(depth, 1)
+            return f'hostCall({fa}, {rng.randint(0, 3)})'
+        return f'hostEach({self.array(1, 3)}, {self.pred(depth)})'
+
+
+def tailcb_case(rng, mode=None, leaf=None, level=None, depth=None, top=None, tail=None):
+    mode = mode or rng.choice(['model', 'model', 'impl', 'impl', 'impl', 'host'])
+    premarks = top == 'include' or level == 'include-in-function' or rng.random() < 0.35
+    gen = Tail(rng, mode, premarks, leaf, level)
+    if depth is None:
+        depth = rng.choice([0, 1, 1, 1, 2])
+    if top is None:
+        top = 'include' if premarks and rng.random() < 0.35 else 'expr'
+    body = []
+    gen.gen.block(body, '', 2, ['a', 'b'], False, rng.randint(0, 2))
+    last = gen.include_stmt(depth) if top == 'include' else gen.last(gen.expr(depth), None)
+    if tail is None:
+        tail = rng.random() < 0.7
+    trailing = [] if tail else [gen.gen.mark() for _ in range(rng.randint(1, 2))]
+    tags = ['tailcb', 'mode:' + mode, 'top:' + top, 'depth:' + str(depth), 'tail' if tail else 'not-tail'] + sorted(gen.kinds | gen.gen.kinds)
+    case = {'family': 'tailcb', 'text': '\n'.join(gen.head + gen.setup + body + last + trailing), 'files': gen.files or None,
+            'globals': {'a': 0, 'b': 2}, 'nfun': None if premarks else gen.nfun, 'premarks': premarks, 'tags': tags}
+    for flag in ('nomodel', 'noref', 'host'):
+        if getattr(gen, flag):
+            case[flag] = True
+    if rng.random() < 0.3:                               # debug: failures of library functions are reported through logFn
+        case['preps'] = [{'warm': [], 'globals': 'reset', 'debug': True, 'stale': None, 'copy': False}]
+    return case
+
+
+def tail_directed(rng, rounds=1):
+    """every leaf under every kind of enclosing level, in tail position (the fillings - arrays, constants, extra statements - are random)"""
+    cases = []
+    for _ in range(rounds):
+        for mode in TAIL_MODES:
+            for leaf in TAIL_LEAVES[mode]:
+                cases.append(tailcb_case(rng, mode, leaf=leaf, depth=0, top='expr', tail=True))
+                cases.append(tailcb_case(rng, mode, leaf=leaf, depth=0, top='include', tail=True))
+                cases.append(tailcb_case(rng, mode, leaf=leaf, level='function', depth=1, top='expr', tail=True))
+                cases.append(tailcb_case(rng, mode, leaf=leaf, level=rng.choice(TAIL_LEVELS[mode]), depth=1, tail=True))
+            for level in TAIL_LEVELS[mode]:
+                cases.append(tailcb_case(rng, mode, level=level, depth=1, top='expr', tail=True))
+                cases.append(tailcb_case(rng, mode, level=level, depth=2, tail=True))
+    return cases
+
+
+# ---------------------------------------------------------------------------------------------------------------------
 # running: implementation (with the logFn snapshot probe), reference interpreter with its own counter
 # ---------------------------------------------------------------------------------------------------------------------
 
@@ -714,7 +1044,7 @@ def run_impl(model, case, limit, prep=None, reuse=True):
     runtime, library, parser = mods['runtime'], mods['library'], mods['parser']
     lib = library.SCRIPT_FUNCTIONS
     log, snaps = [], []
-    g = copy.deepcopy(case['globals'])
+    g = start_globals(case)
     probe = [False]
 
     def log_fn(text):
@@ -748,7 +1078,7 @@ def run_impl(model, case, limit, prep=None, reuse=True):
                     pass
             if prep['globals'] == 'reset':
                 g.clear()
-                g.update(copy.deepcopy(case['globals']))
+                g.update(start_globals(case))
             if not reuse:
                 options = {k: v for k, v in options.items() if k in ('globals', 'logFn', 'fetchFn', 'debug', 'systemPrefix')}
             else:
@@ -895,7 +1225,7 @@ def run_reference(model, case, limit):
     mods = fw.impl()
     library = mods['library']
     log = []
-    g = copy.deepcopy(case['globals'])
+    g = start_globals(case)
     for name, fn in library.SCRIPT_FUNCTIONS.items():
         g.setdefault(name, fn)
     options = {'globals': g, 'maxStatements': 0, 'logFn': log.append, 'statementCount': 0}
@@ -1017,6 +1347,20 @@ def started_at_cap(case, unl):
     return None
 
 
+def witness_input(case, limit, before, **more):
+    """The failing run + the runs of the same case this process made before it ('before': limits of the plain runs, 'before_prep':
+    limits of the earlier runs of the same options history): a run must not depend on what the process did earlier, so a failure
+    that only shows after such a history (state kept in the library across runs, left behind by an aborted run) is a failure of
+    the run; replay() first tries the run alone and then after the history."""
+    inp = {'case': case, 'limit': limit}
+    inp.update(more)
+    if before:
+        inp['before'] = list(before)
+    if not more.get('before_prep'):
+        inp.pop('before_prep', None)
+    return inp
+
+
 def case_key(case):
     """the canonical case (what a coverage record / a comparison is keyed by)"""
     return [case['family'], case['text'], case['files']] + ([{'systemPrefix': case['systemPrefix']}] if 'systemPrefix' in case else [])
@@ -1036,7 +1380,7 @@ def check_program(ctx, st, case, rng, driver):
         nonterm = EXCEEDED.match(unl.get('error', '')) is not None
         total = None if nonterm else unl['count']
         # L = 0 (really unlimited) is only run for programs known to stop: the implementation must never be able to hang the check
-        limits = ([] if nonterm else [0]) + limits_for(rng, total, ctx.quick, (60 if ctx.quick else 120) if case['family'] == 'rinc' else None)
+        limits = ([] if nonterm else [0]) + limits_for(rng, total, ctx.quick, (60 if ctx.quick else 120) if case['family'] == 'rinc' else (100 if ctx.quick else 200) if case['family'] == 'tailcb' else None)
         if case.get('limits') and not nonterm:
             limits = list(case['limits'])
         if not nonterm:
@@ -1074,13 +1418,13 @@ def check_program(ctx, st, case, rng, driver):
                 tags=tags + ['family:' + case['family']] + (case['tags'] if limit == limits[-1] else []))
         bad = budget_oracles(case, model, unl, unl_snaps, limit, out, snaps if fully else None)
         ref = None
-        if case['family'] != 'data' and 'hostexc' not in out:
+        if case['family'] != 'data' and not case.get('noref') and 'hostexc' not in out:
             ref = run_reference(model, case, limit)
             if ref is not None and c08.no_neg_zero(ref) != c08.no_neg_zero(out):
                 bad.append(('independent-statement-count', ref, out))
         refs.append(ref)
         for name, expected, actual in bad:
-            ctx.witness(name, {'case': case, 'limit': limit}, expected, actual)
+            ctx.witness(name, witness_input(case, limit, limits[:len(outs) - 1]), expected, actual)
         if wire_files is not None:
             reqs.append({'op': 'exec', 'script': script, 'globals': progen.wire_globals(case['globals']), 'files': wire_files,
                          'max': limit, 'fuel': 2 * CAP + 500})
@@ -1111,7 +1455,7 @@ def check_prep(ctx, st, case, model, rng, prep, main):
     is_plain = plain(prep) and case['family'] != 'session'
     pcase = case
     if not is_plain:
-        if case['family'] in ('fl', 'data') or prep['debug']:
+        if case['family'] in ('fl', 'data', 'tailcb') or prep['debug']:
             pcase = dict(case, nfun=None, premarks=False)      # script functions of earlier runs stay bound / debug lines in the log: no counting through the log
         unl, unl_snaps = run_impl(model, case, CAP, prep, reuse=False)
         if unl.get('hostexc', '').startswith('Hang'):
@@ -1156,7 +1500,8 @@ def check_prep(ctx, st, case, model, rng, prep, main):
             if is_plain and refs[ix] is not None and c08.no_neg_zero(refs[ix]) != c08.no_neg_zero(out):
                 found.append(('independent-statement-count', refs[ix], out, True))
         for name, expected, actual, reuse in found:
-            ctx.witness(name, {'case': case, 'limit': limit, 'prep': prep, 'reuse': reuse}, expected, actual)
+            ctx.witness(name, witness_input(case, limit, limits, prep=prep, reuse=reuse, before_prep=chosen[:chosen.index(limit)]),
+                        expected, actual)
         if is_plain:
             extra.append((ix, limit, prep, out))
     return extra
@@ -1229,7 +1574,11 @@ def stream_budget(ctx, n, driver=True, name='budget'):
     lib = fw.impl()['library']
     if not lib.DEFAULT_MAX_STATEMENTS > 0:
         ctx.witness('default-limit-positive', 'library.DEFAULT_MAX_STATEMENTS', '> 0', lib.DEFAULT_MAX_STATEMENTS)
-    cases = make_cases(rng, n)
+    run_cases(ctx, st, name, make_cases(rng, n), rng, driver)
+
+
+def run_cases(ctx, st, name, cases, rng, driver):
+    """every case under all its limits and option histories (check_program) + one batch of model comparisons"""
     pending = []
     reqs = []
     for case in cases:
@@ -1258,8 +1607,35 @@ def stream_budget(ctx, n, driver=True, name='budget'):
             pos += nreq
 
 
+def stream_tail(ctx, n, rounds, driver=True, name='tail-callback'):
+    rng = ctx.rng(name)
+    st = ctx.stream(name,
+                    'fully-logged programs whose LAST started statement is inside a script function that LIBRARY or HOST code calls back '
+                    '(family tailcb): leaf = arraySort compare function (plain, a systemPartial value, through systemPartial(arraySort, a), '
+                    'returning no number), arrayIndexOf / arrayLastIndexOf match function (with start index, partial predicate, through '
+                    'systemPartial(arrayIndexOf, a)), the target of a partial (of a partial), a function named in the expression string of '
+                    'dataFilter / dataCalculatedField / dataJoin (left, right, with variables = copied options; a library call-back '
+                    'inside the expression), a direct call, a host function applying its argument (callable object, '
+                    'functools.partial with try/finally, partial of a host function); 0-2 enclosing levels - function bodies ending '
+                    'with the call (expression statement, assignment, return), match / compare / data / partial / host call-backs '
+                    'ending with it, functions and scripts ending with an include of a script that ends with it; the call is the last thing '
+                    'the run does (70%) or 1-2 statements follow; directed part: every leaf x {last top-level statement, included script, '
+                    'function, random level} and every level at depth 1 and 2, all in tail position; EVERY limit L in 1..N+2 for N <= 100 '
+                    '(thorough 200) + L = 0, 30% also with debug, all also on options objects with a history (as in stream budget); oracles of '
+                    'stream budget: the run is aborted iff N > L (a swallowed budget error lets the run complete under L < N) with the exact '
+                    'text and count L+1, identical outcome for L >= N and L = 0, log / global-snapshot prefix, started statements counted through '
+                    'the log (= L at an abort), globals at the abort = globals of the unlimited run at that point, independent reference '
+                    'interpreter; model comparison for the programs that use only library functions of the Lean driver host (arrayIndexOf with '
+                    '2 arguments, systemPartial, includes); arraySort with a compare function, arrayLastIndexOf, start indices, the data '
+                    'functions and host functions are not in the Lean host: implementation-side oracles only there; arrays sorted with a '
+                    'compare function are not reachable from the globals; non-trivial = L within 2 of N or the run is aborted')
+    cases = tail_directed(rng, rounds) + [tailcb_case(rng) for _ in range(n)]
+    run_cases(ctx, st, name, cases, rng, driver)
+
+
 def streams(ctx):
     stream_budget(ctx, ctx.scale(260, 4000))
+    stream_tail(ctx, ctx.scale(40, 1000), ctx.scale(1, 5))
 
 
 def disagreement_known(d, known):
@@ -1272,23 +1648,43 @@ def search(ctx):
 
 def replay(witness):
     inp = witness['input']
-    case = inp['case']
-    if not isinstance(case, dict):
+    if not isinstance(inp, dict) or not isinstance(inp.get('case'), dict):
         return False
+    # first as the check ran it - after the earlier runs of the same case in this process -, then the run alone
+    if (inp.get('before') or inp.get('before_prep')) and replay_once(witness, True):
+        return True
+    return replay_once(witness, False)
+
+
+def replay_once(witness, history):
+    inp = witness['input']
+    case = inp['case']
     model = fw.impl()['parser'].parse_script(case['text'])
     limit = inp['limit']
     prep = inp.get('prep')
     fully = case['family'] in FULLY
+    before = (inp.get('before') or []) if history else []
+    before_prep = (inp.get('before_prep') or []) if history else []
     bad = []
     if prep is None:
         unl, unl_snaps = run_impl(model, case, CAP)
+        for earlier in before:
+            run_impl(model, case, earlier)
         out, snaps = run_impl(model, case, limit)
         pcase, eff = case, limit
     else:
         is_plain = plain(prep) and case['family'] != 'session'
-        pcase = dict(case, nfun=None, premarks=False) if not is_plain and (case['family'] in ('fl', 'data') or prep['debug']) else case
+        pcase = dict(case, nfun=None, premarks=False) if not is_plain and (case['family'] in ('fl', 'data', 'tailcb') or prep['debug']) else case
         eff = 0 if limit is None else limit
+        if before:
+            run_impl(model, case, CAP)
+            for earlier in before:
+                run_impl(model, case, earlier)
         unl, unl_snaps = run_impl(model, case, CAP, prep, reuse=False)
+        for earlier in before_prep:
+            if not is_plain:
+                run_impl(model, case, earlier, prep, reuse=False)
+            run_impl(model, case, earlier, prep, reuse=True)
         fresh, fresh_snaps = run_impl(model, case, limit, prep, reuse=False)
         out, snaps = (run_impl(model, case, limit, prep, reuse=True) if inp.get('reuse', True) else (fresh, fresh_snaps))
         if 'hostexc' not in out and 'hostexc' not in fresh and (out != fresh or (fully and snaps != fresh_snaps)):
@@ -1302,7 +1698,7 @@ def replay(witness):
             bad.append(('static-statement-count', None, None))
     else:
         bad += budget_oracles(pcase, model, unl, unl_snaps, eff, out, snaps if fully else None)
-    if case['family'] not in ('data', 'session') and 'hostexc' not in out and (prep is None or plain(prep)):
+    if case['family'] not in ('data', 'session') and not case.get('noref') and 'hostexc' not in out and (prep is None or plain(prep)):
         ref = run_reference(model, case, eff)
         if ref is not None and c08.no_neg_zero(ref) != c08.no_neg_zero(out):
             bad.append(('independent-statement-count', ref, out))
@@ -1332,7 +1728,10 @@ LEVEL_TEXT = ('Theorems about the Lean mirror of the runtime (one counter in the
               'reference interpreter with its own counter; the same include (system includes under a host systemPrefix, quoted includes, '
               'includes of includes) executed repeatedly in one run - straight-line, from different scripts, in loops, in functions '
               'called repeatedly and call-backs - and empty / comment-only included scripts at the budget boundary, with started '
-              'statements counted through the log and statically. A run does not depend on the counter the state holds when it starts '
+              'statements counted through the log and statically; programs whose last started statement is inside a script function '
+              'that library or host code calls back (arraySort compare functions, arrayIndexOf / arrayLastIndexOf match functions, '
+              'partial targets, functions in data expressions, host functions; under 0-2 enclosing functions, call-backs and includes, '
+              'nothing running afterwards) under every limit 1..N+2: the budget error must reach the host from every one of them. A run does not depend on the counter the state holds when it starts '
               '(own_budget, own_budget_session), tied to the code by running every program on options objects with a history (earlier '
               'runs on the same dict - completed, aborted, failed, other limits -, copied dicts, host-provided statementCount, kept or '
               'reset globals, debug, no maxStatements key, two-script sessions whose second script calls the functions of the first): '
